@@ -13,13 +13,13 @@ CONFIGS_THOROUGH = ["K1", "K2"]
 TECHNIQUE = "static analysis: error-flow (must-reach-sink) provenance, typestate interpretation (closing event terminal, closed queue leaves the loop), ownership who-may-call, panic inventory (MIR)"
 
 AUDITED = {
-    "mpd_protocol::response::Response::into_single_frame|call:core::option::Option::unwrap": (
+    "Response::into_single_frame|call:Option::unwrap": (
         1, "a Response always holds at least one frame or an error (constructed only by the response builder, C03.response-ctor)"),
-    "mpd_client::client::Client::connect|panic:core::panicking::panic": (
+    "Client::connect|panic:panic": (
         1, "unreachable!(): do_connect(.., None) cannot return IncorrectPassword (the password branch is not taken)"),
-    "mpd_client::client::do_connect|call:tokio::task::spawn::spawn": (
+    "do_connect|call:spawn": (
         1, "documented: Client::connect panics outside a Tokio runtime (API contract, not a connection fault)"),
-    "mpd_client::client::Client::raw_command_list|call:alloc::vec::Vec::with_capacity": (
+    "Client::raw_command_list|call:Vec::with_capacity": (
         1, "capacity = number of frames already held in the reply"),
 }
 
